@@ -10,9 +10,11 @@ Open Scope Z_scope.
 
 Record hstate := mkH {
   avail : bool; failN : Z; succN : Z; checkers : Z; released : bool; restarted : bool;
-  failT : Z; succT : Z               (* thresholds of the cluster's check conf, re-read at every use *)
+  failT : Z; succT : Z;              (* thresholds of the cluster's check conf, re-read at every use *)
+  reqT : Z                           (* succT read by the checker when it issued the outstanding request
+                                        (check reads the conf at the top of the iteration, before CheckConnect) *)
 }.
-Definition h_init (ft st : Z) : hstate := mkH true 0 0 0 false false ft st.
+Definition h_init (ft st : Z) : hstate := mkH true 0 0 0 false false ft st st.
 
 Inductive hop :=
 | ReqFail (n : Z)      (* n >= 1 request failures (OnFail), concurrently when n > 1 *)
@@ -25,8 +27,8 @@ Inductive hop :=
 (* top of the check loop after an iteration that did not restore the backend:
    select on closeChan -> exit when released, otherwise issue the next request *)
 Definition loop_top (s : hstate) : hstate :=
-  if released s then mkH (avail s) (failN s) (succN s) (checkers s - 1) true (restarted s) (failT s) (succT s)
-  else s.
+  if released s then mkH (avail s) (failN s) (succN s) (checkers s - 1) true (restarted s) (failT s) (succT s) (reqT s)
+  else mkH (avail s) (failN s) (succN s) (checkers s) (released s) (restarted s) (failT s) (succT s) (succT s).
 
 Definition hstep (s : hstate) (o : hop) : hstate :=
   match o with
@@ -38,21 +40,22 @@ Definition hstep (s : hstate) (o : hop) : hstate :=
          backend leaves at its first select *)
       let start := avail s && negb (released s) in
       mkH false f (succN s) (if start then checkers s + 1 else checkers s) (released s) (restarted s) (failT s) (succT s)
-    else mkH (avail s) f (succN s) (checkers s) (released s) (restarted s) (failT s) (succT s)
-  | ReqSucc => mkH (avail s) 0 (succN s) (checkers s) (released s) (restarted s) (failT s) (succT s)
+          (if start then succT s else reqT s)
+    else mkH (avail s) f (succN s) (checkers s) (released s) (restarted s) (failT s) (succT s) (reqT s)
+  | ReqSucc => mkH (avail s) 0 (succN s) (checkers s) (released s) (restarted s) (failT s) (succT s) (reqT s)
   | CheckOk =>
     if checkers s <=? 0 then s else
-    (* AddSuccNum; CheckAvail(succT): succNum >= succT -> succNum = 0, SetRestart(true), SetAvail(true) (failNum = 0), leave *)
+    (* AddSuccNum; CheckAvail(succT as read when the request was issued): succNum >= succT -> succNum = 0, SetRestart(true), SetAvail(true) (failNum = 0), leave *)
     let k := succN s + 1 in
-    if k >=? succT s then mkH true 0 0 (checkers s - 1) (released s) true (failT s) (succT s)
-    else loop_top (mkH (avail s) (failN s) k (checkers s) (released s) (restarted s) (failT s) (succT s))
+    if k >=? reqT s then mkH true 0 0 (checkers s - 1) (released s) true (failT s) (succT s) (reqT s)
+    else loop_top (mkH (avail s) (failN s) k (checkers s) (released s) (restarted s) (failT s) (succT s) (reqT s))
   | CheckFail =>
     if checkers s <=? 0 then s else
-    loop_top (mkH (avail s) (failN s) 0 (checkers s) (released s) (restarted s) (failT s) (succT s))
+    loop_top (mkH (avail s) (failN s) 0 (checkers s) (released s) (restarted s) (failT s) (succT s) (reqT s))
   | Release =>
     if released s then s   (* the harness releases once; double release is C09's subject *)
-    else mkH (avail s) (failN s) (succN s) (checkers s) true (restarted s) (failT s) (succT s)
-  | SetThr ft st => mkH (avail s) (failN s) (succN s) (checkers s) (released s) (restarted s) ft st
+    else mkH (avail s) (failN s) (succN s) (checkers s) true (restarted s) (failT s) (succT s) (reqT s)
+  | SetThr ft st => mkH (avail s) (failN s) (succN s) (checkers s) (released s) (restarted s) ft st (reqT s)
   end.
 
 Fixpoint hrun (s : hstate) (ops : list hop) : list hstate :=
@@ -65,8 +68,11 @@ Definition hfinal (s : hstate) (ops : list hop) : hstate := fold_left hstep ops 
 (* ---- the specification, as a monitor over (operation, observed (avail, pending checks)) pairs ----
    written from the property text, with its own bookkeeping:
    consec = consecutive request failures, okrun = consecutive successful health checks *)
-Record mon := mkM { m_avail : bool; consec : Z; okrun : Z; m_rel : bool; drained : bool; m_ft : Z; m_st : Z; m_pend : Z }.
-Definition mon_init (ft st : Z) : mon := mkM true 0 0 false false ft st 0.
+Record mon := mkM { m_avail : bool; consec : Z; okrun : Z; m_rel : bool; drained : bool; m_ft : Z; m_st : Z; m_pend : Z;
+                    m_req : Z (* success threshold configured when the outstanding check was issued *) }.
+Definition mon_init (ft st : Z) : mon := mkM true 0 0 false false ft st 0 st.
+(* a check request observed for the first time was issued under the thresholds now in force *)
+Definition issue (m : mon) (fresh : bool) : Z := if fresh then m_st m else m_req m.
 (* one observation: avail, pending *)
 Definition mon_step (m : mon) (o : hop) (av : bool) (pend : Z) : option mon :=
   let basic := (0 <=? pend) && (pend <=? 1)                        (* at most one checker *)
@@ -79,28 +85,28 @@ Definition mon_step (m : mon) (o : hop) (av : bool) (pend : Z) : option mon :=
     (* leaves rotation exactly when the consecutive failures reach the threshold *)
     let expect := if m_avail m then negb (c >=? m_ft m) else false in
     if Bool.eqb av expect && (negb (m_rel m) || (pend =? m_pend m))
-    then Some (mkM av c (okrun m) (m_rel m) (drained m) (m_ft m) (m_st m) pend) else None
+    then Some (mkM av c (okrun m) (m_rel m) (drained m) (m_ft m) (m_st m) pend (issue m ((m_pend m =? 0) && (pend =? 1)))) else None
   | ReqSucc =>
     if Bool.eqb av (m_avail m) && (pend =? m_pend m)
-    then Some (mkM av 0 (okrun m) (m_rel m) (drained m) (m_ft m) (m_st m) pend) else None
+    then Some (mkM av 0 (okrun m) (m_rel m) (drained m) (m_ft m) (m_st m) pend (m_req m)) else None
   | CheckOk =>
     if m_pend m =? 0 then (if Bool.eqb av (m_avail m) && (pend =? 0) then Some m else None) else
     let k := okrun m + 1 in
     (* returns to rotation exactly after succT consecutive successful checks *)
-    let back := k >=? m_st m in
+    let back := k >=? m_req m in
     if Bool.eqb av (m_avail m || back) && (negb (back || m_rel m) || (pend =? 0))
-    then Some (mkM av (if back then 0 else consec m) (if back then 0 else k) (m_rel m) (m_rel m) (m_ft m) (m_st m) pend)
+    then Some (mkM av (if back then 0 else consec m) (if back then 0 else k) (m_rel m) (m_rel m) (m_ft m) (m_st m) pend (issue m (pend =? 1)))
     else None
   | CheckFail =>
     if m_pend m =? 0 then (if Bool.eqb av (m_avail m) && (pend =? 0) then Some m else None) else
     if Bool.eqb av (m_avail m) && (negb (m_rel m) || (pend =? 0))    (* a removed backend stops being checked *)
-    then Some (mkM av (consec m) 0 (m_rel m) (m_rel m) (m_ft m) (m_st m) pend) else None
+    then Some (mkM av (consec m) 0 (m_rel m) (m_rel m) (m_ft m) (m_st m) pend (issue m (pend =? 1))) else None
   | Release =>
     if Bool.eqb av (m_avail m) && (pend =? m_pend m)
-    then Some (mkM av (consec m) (okrun m) true (drained m || (pend =? 0)) (m_ft m) (m_st m) pend) else None
+    then Some (mkM av (consec m) (okrun m) true (drained m || (pend =? 0)) (m_ft m) (m_st m) pend (m_req m)) else None
   | SetThr ft st =>
     if Bool.eqb av (m_avail m) && (pend =? m_pend m)
-    then Some (mkM av (consec m) (okrun m) (m_rel m) (drained m) ft st pend) else None
+    then Some (mkM av (consec m) (okrun m) (m_rel m) (drained m) ft st pend (m_req m)) else None
   end.
 Fixpoint mon_run (m : mon) (tr : list (hop * (bool * Z))) : bool :=
   match tr with
